@@ -52,6 +52,13 @@ let () =
              let t = ity_of (List.nth args 0) in
              let i = z_of_hex (List.nth args 1) and l = z_of_hex (List.nth args 2) in
              out_s (h_bounds t true i l) ^ " " ^ out_s (h_bounds t false i l)
+           | "arith" ->
+             (* arith <add|sub|mul|unm|tdiv> <type> <a> <b>: the plain operator in the dialect of the scraped base flags *)
+             let t = ity_of (List.nth args 1) in
+             let a = z_of_hex (List.nth args 2) and b = z_of_hex (List.nth args 3) in
+             out_s (match List.nth args 0 with
+                    | "add" -> op_add base_mode t a b | "sub" -> op_sub base_mode t a b | "mul" -> op_mul base_mode t a b
+                    | "unm" -> op_unm base_mode t a | "tdiv" -> op_tdiv t a b | s -> failwith s)
            | "narrow" ->
              let st = ity_of (List.nth args 0) and dt = ity_of (List.nth args 1) in
              let x = z_of_hex (List.nth args 2) in
